@@ -55,7 +55,9 @@ async fn read_until(mut stream: SendableRecordBatchStream, stop: impl Fn() -> bo
                 Some(Err(_)) => { failed = true; break }
                 None => break,
             },
-            _ = tokio::task::yield_now() => {}
+            // the clock is paused and only jumps when the runtime is idle, which never happens over an
+            // endless input: let virtual time pass with the consumer's turns instead
+            _ = tokio::time::advance(std::time::Duration::from_millis(1)) => {}
         }
     }
     drop(stream);
